@@ -117,3 +117,12 @@ reg("C19", EX, "small-scope exhaustive enumeration of source lists x models x me
     "source_i(x,Q) on equation i and nothing elsewhere, each source function is called exactly once per rhs, and the nozzle's built-in term "
     "equals -(1/A)(dA/dx) x (rho u, rho u^2, rho u H), identically zero for a constant section.",
     "alphabet lattice; tolerance 16 eps of |source|+|rhs|", "DESIGN.md 3/C19")
+reg("C06", EX, "small-scope exhaustive enumeration of fields x meshes x CFL x reconstructions through the real step(); reference = exact resolvent of the operator matrix read off the real rhs",
+    "For linear convection (both signs), 12 linear reconstructions, 9 meshes (n<=4, thorough 6), periodic and homogeneous dirichlet boundaries, CFL "
+    "0.01..100 and every field of an alphabet (all unit impulses, ones, zero, all S^n vectors, x1e6, x1e-6) one real step of implicit/backwardeuler "
+    "and trapezoidal/cranknicolson equals (I-theta dt A)^-1 applied with the exact A; a second step with another dt on the same object too; "
+    "gear = one Crank-Nicolson step then the BDF2 recurrence over 3 more steps; Fourier amplification factors (1+(1-theta)z)/(1-theta z) and "
+    "no growth for Re z<=0; temporal order from the scalar defect ladder; calc_jacobian against a Richardson-extrapolated central difference "
+    "of the real rhs for Burgers/Euler/shallow water, 16 reconstructions, on tie-free states.",
+    "tau = 1e-6(1+CFL); Jacobian only where the operator is differentiable (certified per state); propagator() of implicit classes is unusable (AttributeError) and not part of the statement",
+    "DESIGN.md 3/C06")
